@@ -91,4 +91,11 @@ theorem indexOf_natList_last (s : List Nat) :
     simp only [show ((-1 : Int) < 0) from by decide, if_true, hk, List.getElem?_map, hlast, Option.map_some, hnn,
       if_false]
 
+/-- `xs[i]` for a natural index into an embedded list -/
+theorem indexOf_map_nat {α : Type} (emb : α → Val) (l : List α) (i : Nat) (x : α) (h : l[i]? = some x) :
+    indexOf (.list (l.map emb)) (.int (i : Int)) = .ok (emb x) := by
+  unfold indexOf
+  have h0 : ¬ ((i : Int) < 0) := by omega
+  simp only [h0, if_false, Int.toNat_natCast, List.getElem?_map, h, Option.map_some]
+
 end Fc.PyLite
